@@ -18,10 +18,11 @@ import re
 from sa.interp import sl, Interp, Scenario, Const, Obj, render, Enum
 from sa.loader import AnalysisError
 from sa import guards
-from sa.paths import (PathFrame, implied, consistent, eq_atom, isinstance_atom, truth_atom, positional, call_text, canon_text,
+from sa.vocab import FUNCTIONS as VOCAB_FUNCS
+from sa.paths import (BV, PathFrame, implied, consistent, eq_atom, isinstance_atom, truth_atom, positional, call_text, canon_text,
                       skel_from_text)
 
-noinline = lambda f: False  # noqa: E731
+noinline = lambda f: f.name not in VOCAB_FUNCS  # noqa: E731   (only helpers an edit introduced are looked into)
 
 
 def run(rep, prog, tier):
@@ -108,7 +109,9 @@ def seipd(rep, prog):
         return t.replace(PT, 'PT')
 
     def mdc_sides(a, b):
-        return P(a) == 'SLICE(PT;-22;)' and P(b) == 'C(d314) HASH(sha1;SLICE(PT;;-20))'
+        # the digest may be taken over PT[:-20], or over PT[:-22] || d3 14: the same thing once the first two of the 22
+        # compared octets are d3 14, which this very comparison establishes
+        return P(a) == 'SLICE(PT;-22;)' and P(b) in ('C(d314) HASH(sha1;SLICE(PT;;-20))', 'C(d314) HASH(sha1;SLICE(PT;;-22) C(d314))')
 
     def mdc_digest(a, b):
         return P(a) == 'SLICE(PT;-20;)' and P(b) == 'HASH(sha1;SLICE(PT;;-20))'
@@ -206,9 +209,15 @@ def keyblob(rep, prog):
 
 
 # ------------------------------------------------------------------------------------------------ the decrypt chain (C04.5 / C04.6)
+class _Paths(PathFrame):
+    # helpers that are not part of the reference vocabulary (extracted by an edit) and that the canonicaliser could not make
+    # transparent (a return inside a loop, ...) are followed path by path where they are called as a statement
+    path_inline = staticmethod(lambda fi: fi.name not in VOCAB_FUNCS)
+
+
 def _paths(prog, fi, **kw):
     it = Interp(prog, Scenario(inline=noinline, **kw))
-    it.frame_cls = PathFrame
+    it.frame_cls = _Paths
     return it.run(fi)
 
 
@@ -373,7 +382,7 @@ def _coll_kind(node, subs, encs):
 
 def _is_common(text, subs, encs):
     """text denotes (subkey ids) intersected with (recipients)."""
-    m = re.match(r'^(?:(?:set|frozenset|list|tuple|sorted)\()?EACH\((\$\w+) in (.+?) if \(?(\$\w+) in (.+?)\)?;(\$\w+)\)\)?$', text)
+    m = re.match(r'^(?:(?:set|frozenset|list|tuple|sorted)\()?EACH\((%s) in (.+?) if \(?(%s) in (.+?)\)?;(%s)\)\)?$' % (BV, BV, BV), text)
     if m and m.group(1) == m.group(3) == m.group(5):
         a, b = canon_text(m.group(2)), canon_text(m.group(4))
         kinds = set()
@@ -394,6 +403,25 @@ def _is_common(text, subs, encs):
     if isinstance(n, ast.Call) and isinstance(n.func, ast.Attribute) and n.func.attr == 'intersection' and len(n.args) == 1:
         return {_coll_kind(n.func.value, subs, encs), _coll_kind(n.args[0], subs, encs)} == {'S', 'E'}
     return False
+
+
+def _split_top(text, sep):
+    """Split at the separator where it is not nested in brackets."""
+    out, depth, last, i = [], 0, 0, 0
+    while i < len(text):
+        ch = text[i]
+        if ch in '([{':
+            depth += 1
+        elif ch in ')]}':
+            depth -= 1
+        elif depth == 0 and text.startswith(sep, i):
+            out.append(text[last:i])
+            i += len(sep)
+            last = i
+            continue
+        i += 1
+    out.append(text[last:])
+    return out
 
 
 def _element_of(text):
@@ -433,6 +461,8 @@ def key_decrypt(rep, prog):
     def atom_sub(a):
         """True: atom true <=> some subkey id is among the recipients; False: the negation; None: another atom."""
         if a[0] == 'expr' and _is_common(a[1], subs, encs):
+            return True
+        if a[0] == 'call' and _is_common('%s(%s)' % (a[1], ', '.join(a[2])), subs, encs):
             return True
         if a[0] == 'call' and a[1] == 'bool' and len(a[2]) == 1 and _is_common(a[2][0], subs, encs):
             return True
@@ -476,10 +506,11 @@ def key_decrypt(rep, prog):
             v, coll, facts = x, s.bound[x], s.facts
         else:
             e = _element_of(x) or ''
-            m = re.match(r'^EACH\((\$\w+) in (.*?) if (.*);(\$\w+)\)$', e)
-            if m and m.group(1) == m.group(4):
-                v, coll = m.group(1), m.group(2)
-                facts = [(m.group(3), True, skel_from_text(m.group(3)))]
+            m = re.match(r'^EACH\((%s) in (.*);(%s)\)$' % (BV, BV), e)
+            if m and m.group(1) == m.group(3):
+                parts = _split_top(m.group(2), ' if ')
+                v, coll = m.group(1), parts[0]
+                facts = [(c, True, skel_from_text(c)) for c in parts[1:]]       # every filter of the comprehension holds
         if facts is None or coll not in ('%s._sessionkeys' % msg,):
             return 'own', 'the session key comes from %s, which is not a selected element of %s._sessionkeys' % (x[:100], msg)
         need = (('a public-key session-key packet', lambda a: False if isinstance_atom(a, v, pke) else None),
@@ -573,7 +604,7 @@ def ecdh(rep, prog):
         r2 = r.replace(U, 'U')
         if P:
             r2 = r2.replace(P, 'P')
-        rep.check(good and r2 == '(P.update(U) + P.finalize())', 'C04.7', W,
+        rep.check(good and r2 in ('(P.update(U) + P.finalize())', 'P.update(U) P.finalize()'), 'C04.7', W,
                   'return %s' % r2, 'the unwrapped value must be returned only through PKCS#5 unpadding (update + finalize)',
                   where=fi.where, expected='unpadder.update(unwrapped) + unpadder.finalize() with unpadder = PKCS7(64).unpadder()',
                   found=r2, scenario=scen)
